@@ -20,6 +20,9 @@
 //!   53 [[fn_id pool rep]]                               the runs that differ (normally empty)
 //!   52 [[hammer_reader_mismatches hammer_main_mismatches reader_iterations]]
 //!   60 [[schedule]]  61 [[collected values]]  62 [[1]]  (probe)
+//!   63 [[k_vec k_range]]  (probe with FAILING items: item i panics with payload "i" iff xs[i] % 7 == 0;
+//!                          k = the payload rayon re-raised, -1 = no panic; low indices are made slow so
+//!                          that the failing item EXECUTED first is usually not the lowest failing index)
 use crate::hist::Toks;
 use crate::obs::*;
 use graphrs::algorithms::centrality::{betweenness, closeness};
@@ -460,6 +463,37 @@ pub fn run_case(lines: &[Vec<String>], o: &mut Out) {
                 o.obs(60, &[sched, sched2], &[]);
                 o.obs(61, &[res, res2], &[]);
                 o.obs(62, &[vec![1, 1]], &[]);
+                // failing items: which panic does the region re-raise?
+                let n = xs.len();
+                let item = |i: usize| -> i64 {
+                    let mut acc = 0u64;
+                    for k in 0..((n - i) * 400) {
+                        acc = acc.wrapping_add(k as u64 ^ acc);
+                    }
+                    std::hint::black_box(acc);
+                    if xs[i] % 7 == 0 {
+                        panic!("{}", i)
+                    } else {
+                        f(xs[i])
+                    }
+                };
+                let payload = |r: std::thread::Result<Vec<i64>>| -> i64 {
+                    match r {
+                        Ok(_) => -1,
+                        Err(e) => e
+                            .downcast_ref::<String>()
+                            .and_then(|s| s.parse::<i64>().ok())
+                            .unwrap_or(-2),
+                    }
+                };
+                let idx3: Vec<usize> = (0..n).collect();
+                let k_vec = payload(std::panic::catch_unwind(std::panic::AssertUnwindSafe(|| {
+                    p.install(|| idx3.into_par_iter().map(item).collect::<Vec<i64>>())
+                })));
+                let k_range = payload(std::panic::catch_unwind(std::panic::AssertUnwindSafe(|| {
+                    p.install(|| (0..n).into_par_iter().map(item).collect::<Vec<i64>>())
+                })));
+                o.obs(63, &[vec![k_vec, k_range]], &[]);
             }
             other => panic!("unknown par case line {}", other),
         }
